@@ -212,3 +212,8 @@ func runExecWithRetriesStop(ctx context.Context, node Node, item Result, stopped
 
 from alts_b import ALTS_B  # noqa: E402
 ALTS += ALTS_B
+
+import alts_c  # noqa: E402
+for _id, _a in alts_c.ALTS.items():
+    if alts_c.PROPS.get(_id):
+        ALTS.append(dict(id="alt3-" + _id, props=alts_c.PROPS[_id], edits=_a["edits"], why=_a["why"]))
